@@ -12,10 +12,10 @@
 (* The stream and the configuration are fixed in the initial state (by the *)
 (* model-checking module, or by a `reset` event of a recorded trace).      *)
 (***************************************************************************)
-EXTENDS Layout
+EXTENDS AdaptiveVR
 
 VARIABLES bytes,    \* the source
-          ts,       \* transfer syntax
+          ts,       \* transfer syntax; "ADAPT" = flexible VR decoding, not yet locked (AdaptiveVR.tla)
           odd,      \* "Accept" | "NextEven" | "Fail"
           mode,     \* "eager" | "lazy"
           pos,      \* reported position
@@ -56,19 +56,23 @@ Sanitize(len) ==
   ELSE len
 Refused(len) == Sanitize(len) = -2
 
+(* the encoding the element header at the current offset is decoded with   *)
+(* (needs Rem >= 8): the transfer syntax, or what the adaptive probe says  *)
+EffTs == LockAfter(ts, bytes, At)
 (* element header at the current offset: [tag, vr, len, hl] *)
 DecElem ==
-  LET tag == RdTag(ts, bytes, At) IN
+  LET tag == RdTag(ts, bytes, At)
+      ets == EffTs IN
   IF tag[1] = 65534 THEN [tag |-> tag, vr |-> "UN", len |-> RdU32(ts, bytes, At + 4), hl |-> 8]
-  ELSE IF ~Explicit(ts) THEN [tag |-> tag, vr |-> ImplicitVR(tag), len |-> RdU32(ts, bytes, At + 4), hl |-> 8]
+  ELSE IF ~Explicit(ets) THEN [tag |-> tag, vr |-> ImplicitVR(tag), len |-> RdU32(ets, bytes, At + 4), hl |-> 8]
   ELSE LET v0 == VRofCode(<<bytes[At + 4], bytes[At + 5]>>)
            vr == IF v0 = "??" THEN "UN" ELSE v0 IN
-       IF vr \in ShortVR THEN [tag |-> tag, vr |-> vr, len |-> RdU16(ts, bytes, At + 6), hl |-> 8]
-       ELSE [tag |-> tag, vr |-> vr, len |-> RdU32(ts, bytes, At + 8), hl |-> 12]
+       IF vr \in ShortVR THEN [tag |-> tag, vr |-> vr, len |-> RdU16(ets, bytes, At + 6), hl |-> 8]
+       ELSE [tag |-> tag, vr |-> vr, len |-> RdU32(ets, bytes, At + 8), hl |-> 12]
 (* number of bytes the element header at the current offset needs *)
 ElemNeed ==
   IF Rem < 8 THEN 8
-  ELSE IF RdTag(ts, bytes, At)[1] = 65534 \/ ~Explicit(ts) THEN 8
+  ELSE IF RdTag(ts, bytes, At)[1] = 65534 \/ ~Explicit(EffTs) THEN 8
   ELSE LET v0 == VRofCode(<<bytes[At + 4], bytes[At + 5]>>) IN IF v0 \in ShortVR THEN 8 ELSE 12
 
 Emit(t) == tok' = t /\ n' = n + 1
@@ -219,7 +223,8 @@ ElemHeaderStep ==
                  ELSE /\ Advance(h.hl) /\ last' = [h EXCEPT !.len = Sanitize(h.len)]
                       /\ Emit(Tok("EH", h.tag, h.vr, Sanitize(h.len), pos + h.hl))
                       /\ UNCHANGED <<inSeq, pend, delims, otNext, status>>
-  /\ Same
+  /\ UNCHANGED <<bytes, odd, mode>>
+  /\ ts' = (IF Rem >= 8 /\ Rem >= ElemNeed THEN EffTs ELSE ts)     \* the adaptive decoder locks here
 
 Done == status # "run" /\ UNCHANGED rvars
 
@@ -227,6 +232,9 @@ RNext == DelimEnd \/ DelimInconsistent \/ DelimClear \/ ItemHeaderStep \/ PixelI
          \/ EnterPixel \/ ReadValue \/ ElemHeaderStep
 
 ---------------------------------------------------------------------------
+(* the adaptive lock is taken once and never changes *)
+LockStable == [][ts # "ADAPT" => ts' = ts]_rvars
+
 (* invariants of the reader itself *)
 PosIsConsumed == pos = cons
 StackOK == \A i \in 1..Len(delims) :
